@@ -230,7 +230,7 @@ def hyper(ctx, a_s, b_s, z, **kwargs):
     elif p == q+1:
         return ctx._hypq1fq(p, q, a_s, b_s, z, **kwargs)
     elif p > q+1 and not kwargs.get('force_series'):
-        return ctx._hyp_borel(p, q, a_s, b_s, z, **kwargs)
+        return +ctx._hyp_borel(p, q, a_s, b_s, z, **kwargs)
     coeffs, types = zip(*(a_s+b_s))
     return ctx.hypsum(p, q, types, coeffs, z, **kwargs)
 
